@@ -1195,6 +1195,21 @@ func permutations(k int) [][]int {
 }
 
 func runCSM(prop string, r *common.Rand, tier string, o *common.Out, replay string) {
+	if strings.HasPrefix(replay, "late|") {
+		p := strings.Split(replay, "|")
+		n, _ := strconv.Atoi(p[2])
+		csmLateCompletion(o, "replay", p[1], n)
+		return
+	}
+	if replay == "" {
+		k := 0
+		for _, kind := range []string{"raw-err", "call-err", "call-ok"} {
+			for _, n := range []int{1, 3} {
+				k++
+				csmLateCompletion(o, fmt.Sprintf("%s-late%d", prop, k), kind, n)
+			}
+		}
+	}
 	if replay != "" {
 		bm := strings.HasPrefix(replay, "B;")
 		calls, evs := csmDecode(replay[2:])
